@@ -45,6 +45,10 @@ def _concat_sequence(fi, D, repo):
 
 
 def run(repo, rep, tier):
+    rep.rule("R-C08-8", "(shared with C05) the regridding kernels flatten in index order only: spectrum values stay paired with their (freq, dir) nodes "
+                        "whatever the memory layout of the input")
+    from .shared import layout_independent_flattening
+    layout_independent_flattening(repo, rep, "R-C08-8")
     rep.rule("R-C08-7", "(shared with C05) direction bin widths are taken circularly: the width enters the variance the regridding conserves and the "
                         "energy <-> density conversion of the writers / readers")
     from .c05 import circular_width
